@@ -43,8 +43,16 @@ def variant_maps(chk, F, rule, cfg):
                 continue
             r = strip(p.outcome[1])
             success_variant = 'Some' if is_output else 'Ok'
+            if is_call(r, r'FromResidual.*::from_residual$') and r[2] and strip(r[2][0])[0] == 'agg' and strip(r[2][0])[3] in ('None', 'Err'):
+                r = strip(r[2][0])      # (`None?` / `Err(e)?` on a literal: the early return of that very value)
             if is_call(r, r'FromResidual.*::from_residual$'):
                 # whole-value failure propagated from the conversion of *this arm's* payload
+                ok = mentions(r, lambda x: x[0] == 'as' and x[2] == vin and strip(x[1]) in (('param', 0, 1), ('deref', ('param', 0, 1))))
+                chk.ob(rule, '%s: a failing inner conversion of the %s payload fails the whole value (no partial value)' % (fn.name, vin), ok, config=cfg, fn=fn, site='propagate:%s' % vin, what='propagation for %s' % vin, found=show(r)[:200])
+                continue
+            if is_call(r, r'GetOutput>?::output$|IntoReturn(Once)?::into_return(_once)?$') and \
+                    any(strip(d_.value)[0] == 'discr' and strip(strip(d_.value)[1]) == r and decision_variant(F, d_) in ('None', 'Err') for d_ in p.decisions):
+                # the failed inner conversion itself, handed on as it is (`inner(payload).map(Variant)` read by contract): a whole-value failure
                 ok = mentions(r, lambda x: x[0] == 'as' and x[2] == vin and strip(x[1]) in (('param', 0, 1), ('deref', ('param', 0, 1))))
                 chk.ob(rule, '%s: a failing inner conversion of the %s payload fails the whole value (no partial value)' % (fn.name, vin), ok, config=cfg, fn=fn, site='propagate:%s' % vin, what='propagation for %s' % vin, found=show(r)[:200])
                 continue
@@ -77,6 +85,10 @@ def variant_maps(chk, F, rule, cfg):
                 chk.ob(rule, '%s returns Some/Ok(converted) or fails as a whole' % fn.name, False, config=cfg, fn=fn, site='shape:%s' % vin, unrecognised=True, what='result shape for %s: %s' % (vin, show(r)[:80]), found=show(r)[:200])
                 continue
             inner = strip(r[4][0][1])
+            if inner in (('param', 0, 1), ('deref', ('param', 0, 1))) and vin in ('None',):
+                # the payload-free variant handed on as it is (`self.map(..)` read by contract: None stays None)
+                chk.ob(rule, '%s: variant %s maps to %s, payload converted from that arm\'s payload' % (fn.name, vin, vin), True, config=cfg, fn=fn, site='variant:%s' % vin, what='%s handed on unchanged' % vin)
+                continue
             if not (inner[0] == 'agg' and inner[3] in KNOWN_VARIANTS):
                 chk.ob(rule, '%s(%s): the produced value has the same variant as the configured one' % (fn.name, vin), False, config=cfg, fn=fn, site='variant:%s' % vin,
                        what='%s -> not a %s constructor: %s' % (vin, vin, show(inner)[:80]), found=show(inner)[:200], expected='%s(..) built from the %s payload' % (vin, vin))
@@ -93,7 +105,34 @@ def variant_maps(chk, F, rule, cfg):
 
 
 VEC_FNS = re.compile(r'^(<output::deep::vec::.* as output::GetOutput>::output|output::(deep|shallow)::vec::<impl output::(GetOutput|IntoReturn|IntoReturnOnce).*>::(output|into_return|into_return_once))$')
-VEC_OK = re.compile(r'(::iter$|IntoIterator>?::into_iter$|Iterator::map$|Iterator::collect$|Iterator>?::next$|Deref>?::deref$|Try>?::branch$|Vec::new$|Vec::with_capacity$|Vec::push$|FromResidual.*::from_residual$|'
+ELEM_CONV = re.compile(r'(GetOutput>?::output|IntoReturn(Once)?>?::into_return(_once)?|Borrow(<[^>]*>)?>?::borrow|AsRef(<[^>]*>)?>?::as_ref|Clone>?::clone|Box::new|Mutable|Lent|Reference)$')
+
+
+def elem_conversion(F, f):
+    """the function handed to `map` in a Vec conversion converts its element and nothing else: a conversion function item, or a
+    closure literal that returns (a wrapping of) such a call on its own parameter on every path"""
+    f = strip(f)
+    if f[0] == 'c' and isinstance(f[1], tuple) and f[1] and f[1][0] == 'fn':
+        from facts import strip_generics
+        return bool(ELEM_CONV.search(strip_generics(str(f[1][1]))))
+    if f[0] == 'agg' and f[1] == 'closure' and f[2] in F.fns:
+        cf = F.fns[f[2]]
+        ps = symex.Interp(F).run(cf)
+        if not ps:
+            return False
+        for p in ps:
+            if p.outcome[0] != 'return':
+                return False
+            names = [e.data[1] for e in p.calls()]
+            if not names or not all(ELEM_CONV.search(n) or VEC_OK.search(n) for n in names) or not any(ELEM_CONV.search(n) for n in names):
+                return False
+            if not mentions(p.outcome[1], lambda x: x == ('param', 0, 2) or (x[0] == 'field' and strip(x[1]) == ('param', 0, 2)) or (x[0] == 'ref' and x[1][0] == ('ptr', ('param', 0, 2)))):
+                return False
+        return True
+    return False
+
+
+VEC_OK = re.compile(r'(::iter$|IntoIterator>?::into_iter$|Iterator::map$|Iterator::collect$|Result::map$|Option::map$|Iterator>?::next$|Deref>?::deref$|Try>?::branch$|Vec::new$|Vec::with_capacity$|Vec::push$|FromResidual.*::from_residual$|'
                     r'GetOutput>?::output$|IntoReturn(Once)?::into_return(_once)?$|Borrow>?::borrow$|AsRef>?::as_ref$|Box::new$|Vec::len$|Iterator::cloned$)')
 
 
@@ -135,6 +174,14 @@ def vec_traversals(chk, F, rule, cfg):
                     names = L.pipeline_calls(srcs[0], lambda x: x in (('param', 0, 1), ('deref', ('param', 0, 1))) or (x[0] == 'ref' and x[1][0] == ('ptr', ('param', 0, 1))))
                     ok = names is not None and all(re.search(r'(Iterator::collect|Iterator::map|IntoIterator>?::into_iter|::iter|Deref>?::deref)$', n) for n in names)
                     chk.ob(rule, 'pipeline form: %s' % (' <- '.join(n.rsplit('::', 1)[-1] for n in names) if names else '?'), ok, config=cfg, fn=fn, site='pipeline', what='vec pipeline %s' % names, found=names)
+                    for m_ in [x for x in symex.subvalues(srcs[0]) if is_call(x, r'Iterator::map$')]:
+                        chk.ob(rule, 'the function mapped over the elements converts its element and nothing else', len(m_[2]) == 2 and elem_conversion(F, m_[2][1]), config=cfg, fn=fn, site='map-fn', what='mapped function %s' % show(m_[2][1])[:80],
+                               found=show(m_[2][1])[:160])
+                    # (what is done to the collected vector afterwards - `.map(AsReturn)`, `Ok(AsReturn(..))` - is wrapping by a constructor)
+                    for w_ in [x for x in symex.subvalues(r) if is_call(x, r'(Result|Option)::map$') and len(x[2]) == 2]:
+                        fw = strip(w_[2][1])
+                        okw = fw[0] == 'c' and isinstance(fw[1], tuple) and fw[1][:1] == ('fn',) and str(fw[1][1]).rsplit('::', 1)[-1].split('<')[0] in ('AsReturn', 'Some', 'Ok', 'Mutable', 'Lent')
+                        chk.ob(rule, 'the collected vector is only wrapped by a constructor', okw, config=cfg, fn=fn, site='wrap', what='wrapper %s' % show(fw)[:80], found=show(fw)[:120])
                 else:
                     chk.ob(rule, 'Vec conversion is a loop or a map/collect pipeline', False, config=cfg, fn=fn, site='shape', unrecognised=True, what='vec conversion shape', found=show(r)[:200])
 
